@@ -258,8 +258,17 @@ def pyvc_close(lp, snaps, name, cur):
     d = lp.dim
 
     def close_scalar(a0, a1):
-        delta = sp.expand(to_expr(a1) - to_expr(a0))
-        return wrap(to_expr(a0) + sum_over(d, delta))
+        e0, e1 = to_expr(a0), to_expr(a1)
+        if isinstance(e1, sp.Piecewise) and e1 != e0 and not any(sp.sympify(c).has(d.k) for _, c in e1.args):
+            # masked update  x[m] += v :  a1 = Piecewise((a0 + v, m), (a0, True)); the conditions do not depend on the iteration,
+            # so the increments are summed branch by branch (a0 cancels syntactically in every branch)
+            pieces = []
+            for v, c in e1.args:
+                delta = sp.expand(v - e0)
+                pieces.append((sum_over(d, delta) if delta != 0 else sp.Integer(0), c))
+            return wrap(e0 + sp.Piecewise(*pieces))
+        delta = sp.expand(e1 - e0)
+        return wrap(e0 + sum_over(d, delta))
 
     if isinstance(cur, _np.ndarray):
         a0 = _obj(acc0)
@@ -269,10 +278,43 @@ def pyvc_close(lp, snaps, name, cur):
         cur[...] = new
         return cur
     if isinstance(cur, SymArr):
-        raise paths.OutOfReach("array accumulator with symbolic axis")
+        if not isinstance(acc0, SymArr) or tuple(acc0.axes) != tuple(cur.axes) or acc0.inner.shape != cur.inner.shape or d in cur.axes:
+            raise paths.OutOfReach("array accumulator whose shape changes in a generic loop")
+        new = _np.empty(cur.inner.shape, dtype=object)
+        for idx in (_np.ndindex(cur.inner.shape) if cur.inner.ndim else [()]):
+            new[idx] = close_scalar(acc0.inner[idx], cur.inner[idx])
+        cur.inner[...] = new
+        return cur
     if isinstance(cur, (list, tuple)):
         raise paths.OutOfReach("sequence accumulator in a generic loop")
     return close_scalar(acc0, cur)
+
+
+def pyvc_check(lp, before, loc, accs):
+    """after a generic loop: a value that existed before the loop and now depends on the loop's generic index was updated in a
+    way the summarisation schemas do not cover (e.g. overwritten in every iteration) -- the function leaves the subset"""
+    if not isinstance(lp, _GenericIter):
+        return
+    k = lp.dim.k
+    for n in before:
+        if n in accs or n not in loc or n.startswith("__pyvc"):
+            continue
+        v = loc[n]
+        if isinstance(v, SymArr):
+            if lp.dim in v.axes:
+                continue
+            vals = v.inner.reshape(-1)
+        elif isinstance(v, _np.ndarray) and v.dtype == object:
+            vals = v.reshape(-1)
+        elif isinstance(v, Sym):
+            vals = [v]
+        else:
+            continue
+        for x in vals:
+            e = to_expr(x) if isinstance(x, (Sym, SymBool)) or hasattr(x, "free_symbols") else None
+            if e is not None and k in getattr(e, "free_symbols", ()):
+                raise paths.OutOfReach(f"'{n}' was defined before a loop over a symbolic sequence and depends on its generic element afterwards "
+                                       "(an update that is neither an accumulation nor a store at the generic index)")
 
 
 def pyvc_comp(it, f):
@@ -314,6 +356,9 @@ class _Instrument(ast.NodeTransformer):
                                 [ast.Call(ast.Name("locals", ast.Load()), [], []),
                                  ast.Tuple([ast.Constant(a) for a in accs], ast.Load())], [])),
         ]
+        bf = f"__pyvc_bf{self.n}"
+        pre.append(ast.Assign([ast.Name(bf, ast.Store())],
+                              ast.Call(ast.Name("tuple", ast.Load()), [ast.Call(ast.Name("locals", ast.Load()), [], [])], [])))
         node.iter = ast.Name(lp, ast.Load())
         post = [
             ast.Assign([ast.Name(a, ast.Store())],
@@ -322,6 +367,9 @@ class _Instrument(ast.NodeTransformer):
                                  ast.Name(a, ast.Load())], []))
             for a in accs
         ]
+        post.append(ast.Expr(ast.Call(ast.Name("__pyvc_check__", ast.Load()),
+                                      [ast.Name(lp, ast.Load()), ast.Name(bf, ast.Load()), ast.Call(ast.Name("locals", ast.Load()), [], []),
+                                       ast.Tuple([ast.Constant(a) for a in accs], ast.Load())], [])))
         out = pre + [node] + post
         for o in out:
             ast.copy_location(o, node)
@@ -352,6 +400,8 @@ def _aug_names(stmts):
         def visit_AugAssign(self, n):
             if isinstance(n.target, ast.Name):
                 out.add(n.target.id)
+            elif isinstance(n.target, ast.Subscript) and isinstance(n.target.value, ast.Name):
+                out.add(n.target.value.id)          # x[...] += v : the array x is an accumulator
             self.generic_visit(n)
 
         def visit_FunctionDef(self, n):
@@ -381,7 +431,7 @@ class Loader:
             "zip": v_zip, "any": v_any, "all": v_all, "sum": v_sum, "float": v_float, "int": v_int,
             "isinstance": v_isinstance, "list": v_list,
             "__pyvc_loop__": pyvc_loop, "__pyvc_snap__": pyvc_snap, "__pyvc_close__": pyvc_close,
-            "__pyvc_comp__": pyvc_comp, "__pyvc_list__": pyvc_list,
+            "__pyvc_comp__": pyvc_comp, "__pyvc_list__": pyvc_list, "__pyvc_check__": pyvc_check,
         })
 
     # ---------------------------------------------------------------- files
